@@ -271,7 +271,10 @@ protected:
 			throw erational_divide_by_zero();
 		}
 #else
-		std::cerr << "erational_divide_by_zero\n";
+		if (b.iszero()) {
+			std::cerr << "erational_divide_by_zero\n";
+			return;
+		}
 #endif
 		while (a % b > 0) {
 			r = a % b;
@@ -280,6 +283,7 @@ protected:
 		}
 		numerator /= b;
 		denominator /= b;
+		if (numerator.iszero()) negative = false; // zero has a single representation: +0/1
 	}
 	// conversion functions
 	// convert to signed int: TODO, SFINEA
